@@ -338,8 +338,8 @@ def monitor(case, o1, o2, mrecs=None):
         kk = (k[0], k[1])
         if twice[k] > 1:
             return "<-same-lockid-held-twice"
-        if expr.get(k) == 65535 and not (aidx.get(k, {}).get("eflag", 0) & 0x4440):
-            return "<-expried-65535-wraps"                       # uint16(eT - CommandTime) = uint16(65536) = 0 in the record
+        if expr.get(k) == 65535 and not (aidx.get(k, {}).get("eflag", 0) & 0x4400):
+            return "<-expried-65535-wraps"                       # uint16(eT - CommandTime) = uint16(65536) = 0 in the record (minutes: 65535 + 1)
         counts = set(h["count"] for h in A if (h["db"], h["key"]) == kk)
         if len(mixed_hold.get(k, ())) < 2 and len(counts) > 1:
             return "<-shared-count-oldest-holder"                # doLock judges by the Count of the oldest holder
